@@ -150,7 +150,9 @@ def install(lib):
     def f_walk(it, a, k, n):
         # the directory walk is an opaque lazy iterator; what it yields is the A-oswalk assumption of its consumers
         it.ctx.ghost.setdefault('oswalk_calls', []).append((a, k))
-        return VOpaque(it.ctx.fresh_const('oswalk', U))
+        it.engine.assumed.add('A-oswalk: os.walk yields a finite sequence of (dirpath, dirnames, filenames) items; the names '
+                              'of one listing are pairwise distinct; it descends into the names left in dirnames')
+        return SeqT(TupleT(Str, ListT(Str), ListT(Str))).fresh(it.ctx, 'oswalk')
     os_['walk'] = VFunc('os.walk', f_walk)
 
     fc = lib.modules.setdefault('fcntl', {})
